@@ -8,7 +8,12 @@ SPEC = {
         {"dialect": "limits", "quick_n": 20000, "thorough_n": 400000, "judge": "judge-c17-limits"},
     ],
     "oracles": [
-        # (lead) wire-level oracle with gluon.WithIMAPLimits: histories near the limits, forced check/insert race
+        # (agent-wire) wire level: whole server over TCP with gluon.WithIMAPLimits, two sessions + dummy connector, a DB
+        # interposer forcing check1 check2 insert1 insert2; histories near the limits; the observed world before/after
+        # every step is judged by judge-c17-wire (Driver/DJudgeLimits.lean, on the machine of Model/Limits.lean).
+        # Directed histories: corpus/C17/*.limits
+        {"name": "c17limits", "quick_args": ["-n", "20", "-steps", "25"],
+         "thorough_args": ["-n", "400", "-steps", "40"], "timeout": 2400},
     ],
     "trusted_base": [
         "Lean 4.33.0 kernel; axioms limited to propext, Classical.choice, Quot.sound (audited per theorem)",
